@@ -27,7 +27,15 @@ Tracked ==
    BlkE(<<SExpr(AssertE(JetE("eq_1", <<Dec(1), Dec(1)>>)))>>, V("a")),
    EMatch(V("o"), <<Arm(MNone, ECall(CPanic, <<>>)), Arm(MSome("v", T2), V("v"))>>),
    BlkE(<<SLet(PTup(<<PId("x"), PId("y")>>), TTup(<<T2, T1>>), Call1(CDbg, ETuple(<<V("a"), Dec(1)>>)))>>, V("x")),
-   CastE(TTup(<<T1, T1>>), Call1(CDbg, ETuple(<<JetE("complement_1", <<Dec(1)>>), JetE("xor_1", <<Dec(1), Dec(0)>>)>>)))}
+   CastE(TTup(<<T1, T1>>), Call1(CDbg, ETuple(<<JetE("complement_1", <<Dec(1)>>), JetE("xor_1", <<Dec(1), Dec(0)>>)>>))),
+   \* dbg! / unwrap_left of compound values that contain None / Left / Right next to other components (value reconstruction)
+   BlkE(<<SLet(PTup(<<PId("x"), PIgn>>), TTup(<<T2, TOpt(T1)>>), Call1(CDbg, ETuple(<<V("a"), ENone>>)))>>, V("x")),
+   BlkE(<<SLet(PTup(<<PId("x"), PIgn>>), TTup(<<T2, TO>>), Call1(CDbg, ETuple(<<V("a"), V("o")>>)))>>, V("x")),
+   BlkE(<<SLet(PIgn, TArr(TOpt(T1), 3), Call1(CDbg, EArray(<<ESome(Dec(1)), ENone, ESome(Dec(0))>>)))>>, V("a")),
+   BlkE(<<SLet(PTup(<<PId("x"), PIgn>>), TTup(<<T2, TEither(T2, T1)>>), Call1(CDbg, ETuple(<<V("a"), V("e")>>)))>>, V("x")),
+   BlkE(<<SLet(PTup(<<PId("x"), PIgn>>), TTup(<<T2, TO>>),
+               Call1(CUnwrapLeft(T1), ELeft(ETuple(<<V("a"), V("o")>>))))>>, V("x")),
+   BlkE(<<SLet(PIgn, TList(TO, 4), Call1(CDbg, EList(<<V("o"), ENone, ESome(V("a"))>>)))>>, V("a"))}
 
 IdF == IFn("idf", <<Param("a", T2)>>, <<T2>>, BlkE(<<>>, V("a")))
 \* positions
